@@ -233,8 +233,9 @@ Record txv := mk_txv {
   v_uri : bytes; v_uri_raw : bytes; v_query_string : bytes;
   v_basename : bytes; v_filename : bytes; v_request_line : bytes
 }.
+(* NewTransaction: REQUEST_BODY_LENGTH, REQBODY_ERROR, URLENCODED_ERROR start as "0" *)
 Definition txv_empty : txv :=
-  mk_txv [] [] [] [] [] [] [] [] false false [] [] [] [] [] [].
+  mk_txv [] [] [] [] [] [] [] [48] false false [] [] [] [] [] [].
 
 Definition set_args_get (t : txv) (m : cmap) : txv :=
   mk_txv m (v_args_post t) (v_args_path t) (v_headers t) (v_cookies t) (v_rbp t) (v_request_body t)
